@@ -246,7 +246,11 @@ def check_real_add(case, col, derived):
             if exc_signature(e).endswith('outside-repo'):
                 raise
             dl = 'derived-legal' if v[0] else ('derived-illegal:' if v[0] is False else 'derived-') + v[1].replace(' ', '-')
-            if refused:
+            if refused and dl == 'derived-legal':
+                # say which rule the library invoked, so that a known finding can be matched narrowly
+                why = 'semicolon' if 'semicolon' in str(e) else ('version' if 'version' in str(e) else 'other')
+                sig = 'C18/b/library-refuses-derived/%s/%s/l%d/%s:%s' % (via, k, level, dl, why)
+            elif refused:
                 sig = 'C18/b/library-refuses-derived/%s/%s/%s' % (via, k, dl)
             else:
                 sig = 'C18/b/library-crashes-on-derived/%s/%s/%s' % (via, k, exc_signature(e))
